@@ -7,6 +7,7 @@ package comet
 import (
 	"fmt"
 	"math"
+	"math/big"
 	"sort"
 	"testing"
 
@@ -43,6 +44,48 @@ func (v vfMVal) fixed() int64 {
 		return int64(v.F * 100)
 	}
 	return v.I
+}
+
+// vfCents is the value at two-decimal fixed point whatever Go type carries it: integers times 100,
+// floats truncated to cents (the generated floats are those where truncation and rounding agree).
+func (v vfMVal) cents() *big.Int {
+	if v.T == "f" {
+		return big.NewInt(int64(v.F * 100))
+	}
+	return new(big.Int).Mul(big.NewInt(v.I), big.NewInt(100))
+}
+
+// vfCmpNumeric compares a stored value with an operand under ordinary comparison semantics. Same
+// representation on both sides: the index's own fixed-point images (exact, also for huge integers);
+// an integer against a float: in cents.
+func vfCmpNumeric(stored, operand vfMVal) int {
+	if (stored.T == "f") == (operand.T == "f") {
+		a, b := stored.fixed(), operand.fixed()
+		switch {
+		case a < b:
+			return -1
+		case a > b:
+			return 1
+		}
+		return 0
+	}
+	return stored.cents().Cmp(operand.cents())
+}
+
+const vfKF3 = "KF-3"
+
+// vfCrossTyped: a numeric filter whose operand is an integer on a float field or a float on an integer field
+func vfCrossTyped(f *vfMFilter) bool {
+	typ := vfMFields[f.Field]
+	if !vfIsNumericType(typ) {
+		return false
+	}
+	for _, o := range []*vfMVal{f.V, f.V2} {
+		if o != nil && (o.T == "f") != (typ == "f") {
+			return true
+		}
+	}
+	return false
 }
 
 func (v vfMVal) cat() string {
@@ -137,6 +180,15 @@ func vfGenMFilterLike(rt *rapid.T, stored map[string][]vfMVal, like *vfMFilter) 
 	f := vfMFilter{Field: field}
 	// operand: a stored value, a neighbour of one, or a fresh one
 	operand := func(label string) *vfMVal {
+		// one numeric operand in eight has the OTHER numeric Go type (an int against a float field, as in
+		// the package documentation's Lt("price", 50); a float against an integer field)
+		if (typ == "i" || typ == "i64" || typ == "f") && field != "zzn" && rapid.IntRange(0, 7).Draw(rt, label+"_cross_typed") == 0 {
+			if typ == "f" {
+				return &vfMVal{T: "i", I: int64(rapid.IntRange(-4, 4).Draw(rt, label+"_cross_int"))}
+			}
+			k := float64(rapid.IntRange(-8, 8).Draw(rt, label+"_cross_k"))
+			return &vfMVal{T: "f", F: k + rapid.SampledFrom([]float64{0, 0.5, 0.25}).Draw(rt, label+"_cross_frac")}
+		}
 		if vals := stored[field]; len(vals) > 0 && rapid.IntRange(0, 2).Draw(rt, label+"_from_stored") > 0 {
 			v := vals[rapid.IntRange(0, len(vals)-1).Draw(rt, label+"_stored_idx")]
 			if (typ == "i" || typ == "i64") && rapid.IntRange(0, 2).Draw(rt, label+"_neighbour") == 0 {
@@ -306,22 +358,21 @@ func vfEvalBase(f *vfMFilter, doc map[string]vfMVal) (match, universe bool) {
 		if !has {
 			return false, false // numeric comparisons live in the "has the field" universe
 		}
-		x := v.fixed()
 		switch f.Op {
 		case "eq":
-			return x == f.V.fixed(), true
+			return vfCmpNumeric(v, *f.V) == 0, true
 		case "ne":
-			return x != f.V.fixed(), true
+			return vfCmpNumeric(v, *f.V) != 0, true
 		case "lt":
-			return x < f.V.fixed(), true
+			return vfCmpNumeric(v, *f.V) < 0, true
 		case "lte":
-			return x <= f.V.fixed(), true
+			return vfCmpNumeric(v, *f.V) <= 0, true
 		case "gt":
-			return x > f.V.fixed(), true
+			return vfCmpNumeric(v, *f.V) > 0, true
 		case "gte":
-			return x >= f.V.fixed(), true
+			return vfCmpNumeric(v, *f.V) >= 0, true
 		case "range":
-			return x >= f.V.fixed() && x <= f.V2.fixed(), true
+			return vfCmpNumeric(v, *f.V) >= 0 && vfCmpNumeric(v, *f.V2) <= 0, true
 		}
 		return false, true
 	}
@@ -574,6 +625,19 @@ func vfC04Run(c vfC04Case, ctx *vfCtx) *vfViolation {
 				ctx.Class("ne_numeric_on_never_stored_field(skipped)")
 				continue
 			}
+			crossTyped := false
+			for _, g := range op.Groups {
+				for fi := range g {
+					crossTyped = crossTyped || vfCrossTyped(&g[fi])
+				}
+			}
+			if crossTyped && ctx.AttrActive(vfKF3) {
+				// open finding KF-3 (operands are converted by their own Go type, not the field's): such
+				// searches are excluded while it still reproduces, and counted
+				ctx.Excluded(1)
+				ctx.Class("cross_typed_numeric_operand(excluded: KF-3)")
+				continue
+			}
 			groups := op.Groups
 			if op.Entry == "filters" && len(groups) > 1 {
 				groups = groups[:1]
@@ -588,6 +652,9 @@ func vfC04Run(c vfC04Case, ctx *vfCtx) *vfViolation {
 			}
 			want := m.eval(groups, op.Entry)
 			if fmt.Sprint(got) != fmt.Sprint(want) {
+				if crossTyped {
+					return vfFailAttr(vfKF3, "op %d: search %s via %s over %d live documents returned ids %v, ordinary comparison selects %v (an operand has the other numeric Go type than the field's values); documents: %s", i, expr, op.Entry, len(m.docs), got, want, vfDescribeDocs(m, got, want))
+				}
 				return vfFail("op %d: search %s via %s over %d live documents returned ids %v, the predicate selects %v; documents: %s", i, expr, op.Entry, len(m.docs), got, want, vfDescribeDocs(m, got, want))
 			}
 			if len(want) > 0 && len(want) < len(m.docs) || removedMatching && len(m.docs) > 0 {
